@@ -386,3 +386,26 @@ def _admt(run, prog, mi):
                      'with anisotropy one %s does not reduce to %s whatever the flux map: residual %s' % (k, w, (got - w).key()[:160]))
     run.floor('C20-R5', 5)
     run.floor('C20-R3', 5)
+
+
+MUTANTS = [
+    dict(name='stencil-coefficient', file=FILE, find="            Dx[ith_cell, n_left] = -1 / 2", replace="            Dx[ith_cell, n_left] = -1 / 4", expect='C20-R1'),
+    dict(name='stencil-neighbour-flipped', file=FILE, find="n_below = grid_index_2d_to_1d_map[ix, iy + 1]", replace="n_below = grid_index_2d_to_1d_map[ix, iy - 1]", expect='C20-R1'),
+    dict(name='corner-mixed-sign', file=FILE, find="        if top_right:\n            Dxy[ith_cell, ith_cell] = 1", replace="        if top_right:\n            Dxy[ith_cell, ith_cell] = -1", expect='C20-R1'),
+    dict(name='edge-mixed-wrong-neighbour', file=FILE, find="            if not (top_left or bottom_left):\n                Dxy[ith_cell, n_above_right] = 1 / 2\n                Dxy[ith_cell, n_below] = 1 / 2",
+         replace="            if not (top_left or bottom_left):\n                Dxy[ith_cell, n_above_right] = 1 / 2\n                Dxy[ith_cell, n_above] = 1 / 2", expect='C20-R1'),
+    dict(name='scale-dxx-by-dx', file=FILE, find="Dxx = Dxx / dx**2", replace="Dxx = Dxx / dx", expect='C20-R1s'),
+    dict(name='psi-derivative-swapped-in-cy', file=FILE, find="(dpsidxdy * dpsidx + dpsidxx * dpsidy)", replace="(dpsidxdy * dpsidx + dpsidyy * dpsidy)", expect='C20-R5'),
+    dict(name='D17-reintroduced', file=FILE, find="(dpsidx * dpsidxx + dpsidy * dpsidxdy)\n        + (Dperp - Dpar) * (dpsidx * dpsidy) * (dpsidx * dpsidxdy + dpsidy * dpsidyy)",
+         replace="(dpsidx * dpsidxx + dpsidy * dpsidyy)\n        + (Dperp - Dpar) * (dpsidx * dpsidy) * (dpsidx * dpsidxdy + dpsidy * dpsidyy)", expect='C20-R5'),
+    dict(name='cxy-factor-2-dropped', file=FILE, find="cxx @ Dxx + 2 * cxy @ Dxy + cyy @ Dyy", replace="cxx @ Dxx + cxy @ Dxy + cyy @ Dyy", expect='C20-R4'),
+    dict(name='cyy-uses-wrong-weights', file=FILE, find="cyy = (Dperp * (dpsidy)**2 + Dpar * (dpsidx)**2) / normalisation", replace="cyy = (Dperp * (dpsidx)**2 + Dpar * (dpsidy)**2) / normalisation", expect='C20-R5'),
+    dict(name='toroidal-term-missing-in-cx', file=FILE, find="        + ddiff_term_cx + dnorm_term_cx + toroidal_term_cx", replace="        + ddiff_term_cx + dnorm_term_cx", expect='C20-R'),
+    dict(name='anisotropy-inverted', file=FILE, find="Dperp = Dpar / anisotropy", replace="Dperp = Dpar * anisotropy", expect='C20-R6'),
+    dict(name='ddiff-derivative-direction', file=FILE, find="dpsidx**2 * ddperpdx + dpsidy**2 * ddpardx", replace="dpsidx**2 * ddperpdy + dpsidy**2 * ddpardx", expect='C20-R5'),
+]
+TWINS = [
+    dict(name='terms-reordered', file=FILE, find="cxx = (Dperp * (dpsidx)**2 + Dpar * (dpsidy)**2) / normalisation", replace="cxx = (Dpar * dpsidy * dpsidy + (dpsidx)**2 * Dperp) / normalisation"),
+    dict(name='assembly-reordered', file=FILE, find="admt_operator = cx @ Dx + cy @ Dy + cxx @ Dxx + 2 * cxy @ Dxy + cyy @ Dyy", replace="admt_operator = cyy @ Dyy + cx @ Dx + cy @ Dy + cxx @ Dxx + cxy @ Dxy * 2"),
+    dict(name='half-as-decimal', file=FILE, find="            Dx[ith_cell, n_left] = -1 / 2", replace="            Dx[ith_cell, n_left] = -0.5"),
+]
